@@ -8,18 +8,20 @@ from absint import Agg, HRef, Ref, Sym, TOP, some, NONE, Event
 class Vec:
     """handle of a heap vector"""
 
-    def __init__(self, vid, borrowed=False):
+    def __init__(self, vid, borrowed=False, lo=None, hi=None):
         self.vid = vid
         self.borrowed = borrowed   # the handle stands for `&[T]` / `&Vec<T>`: iterating it yields references
+        self.lo = lo               # sub-slice view [lo, hi) of the heap vector (None: the whole vector)
+        self.hi = hi
 
     def __repr__(self):
-        return "Vec(%s%s)" % ("&" if self.borrowed else "", self.vid)
+        return "Vec(%s%s%s)" % ("&" if self.borrowed else "", self.vid, "" if self.lo is None else "[%d..%d]" % (self.lo, self.hi))
 
     def __eq__(self, o):
-        return isinstance(o, Vec) and o.vid == self.vid
+        return isinstance(o, Vec) and (o.vid, o.lo, o.hi) == (self.vid, self.lo, self.hi)
 
     def __hash__(self):
-        return hash(("Vec", self.vid))
+        return hash(("Vec", self.vid, self.lo, self.hi))
 
 
 class It:
@@ -45,6 +47,38 @@ def heap_set(interp, vid, items):
     h = dict(interp.mstate.get("heap", {}))
     h[vid] = tuple(items)
     interp.mstate["heap"] = h
+
+
+def view_get(interp, v):
+    items = heap_get(interp, v.vid)
+    return items if v.lo is None else items[v.lo:v.hi]
+
+
+def view_set(interp, v, new):
+    """replace what the handle denotes (a view keeps its length)"""
+    if v.lo is None:
+        heap_set(interp, v.vid, new)
+        return
+    full = list(heap_get(interp, v.vid))
+    new = list(new)
+    if len(new) == v.hi - v.lo:
+        full[v.lo:v.hi] = new
+        heap_set(interp, v.vid, full)
+
+
+def store_ref(interp, env, r, val):
+    """write through an element / local reference"""
+    if isinstance(r, HRef):
+        items = list(heap_get(interp, r.vid))
+        if r.idx < len(items):
+            items[r.idx] = val
+            heap_set(interp, r.vid, items)
+            return True
+        return False
+    if isinstance(r, Ref):
+        interp.write_ref(env, r, val)
+        return True
+    return False
 
 
 def new_vec(interp, items=()):
@@ -90,7 +124,7 @@ def veq(interp, env, a, b):
             return ra == rb
         return a.tag == b.tag
     if isinstance(a, Vec) and isinstance(b, Vec):
-        ia, ib = heap_get(interp, a.vid), heap_get(interp, b.vid)
+        ia, ib = view_get(interp, a), view_get(interp, b)
         if len(ia) != len(ib):
             return False
         for x, y in zip(ia, ib):
@@ -145,10 +179,10 @@ def iter_items(interp, env, v):
         return list(v.items)
     if isinstance(v, Vec):
         by_value = isinstance(v0, Vec) and not v0.borrowed
-        items = heap_get(interp, v.vid)
+        items = view_get(interp, v)
         if by_value:
             return list(items)
-        return [HRef(v.vid, i) for i in range(len(items))]
+        return [HRef(v.vid, (v.lo or 0) + i) for i in range(len(items))]
     if isinstance(v, Agg) and v.kind in ("array", "tuple"):
         return list(v.fields)
     if isinstance(v, Agg) and v.name == "core::option::Option":
@@ -161,7 +195,7 @@ def iter_items(interp, env, v):
 def vec_slice_len(interp, env, v):
     v = load(interp, env, v)
     if isinstance(v, Vec):
-        return len(heap_get(interp, v.vid))
+        return len(view_get(interp, v))
     if isinstance(v, Agg) and v.kind in ("array", "slice"):
         return len(v.fields)
     return TOP
@@ -171,7 +205,7 @@ def vec_index(interp, env, v, e):
     """hook for `v[i]` / constant-index patterns on heap vectors"""
     v = load(interp, env, v)
     if isinstance(v, Vec):
-        items = heap_get(interp, v.vid)
+        items = view_get(interp, v)
         if e[0] == "ci":
             idx = (len(items) - e[1]) if e[2] else e[1]
         elif e[0] == "i":
@@ -181,6 +215,44 @@ def vec_index(interp, env, v, e):
         if isinstance(idx, int) and not isinstance(idx, bool) and 0 <= idx < len(items):
             return items[idx]
     return TOP
+
+
+def _split_top(s):
+    out, depth, cur = [], 0, ""
+    for ch in s:
+        if ch in "<([":
+            depth += 1
+        elif ch in ">)]":
+            depth -= 1
+        if ch == "," and depth == 0:
+            if cur.strip():
+                out.append(cur.strip())
+            cur = ""
+        else:
+            cur += ch
+    if cur.strip():
+        out.append(cur.strip())
+    return out
+
+
+def _range_bounds(r, n):
+    """[lo, hi) denoted by a range value over a sequence of length n (integer bounds only)"""
+    nm = r.name.rsplit("::", 1)[-1]
+    fs = r.fields
+    isint = lambda x: isinstance(x, int) and not isinstance(x, bool)
+    if nm == "Range" and len(fs) >= 2 and isint(fs[0]) and isint(fs[1]):
+        return fs[0], fs[1]
+    if nm == "RangeInclusive" and len(fs) >= 2 and isint(fs[0]) and isint(fs[1]):
+        return fs[0], fs[1] + 1
+    if nm == "RangeFrom" and len(fs) >= 1 and isint(fs[0]):
+        return fs[0], max(n, fs[0]) if fs[0] > n else n
+    if nm == "RangeTo" and len(fs) >= 1 and isint(fs[0]):
+        return 0, fs[0]
+    if nm == "RangeToInclusive" and len(fs) >= 1 and isint(fs[0]):
+        return 0, fs[0] + 1
+    if nm == "RangeFull":
+        return 0, n
+    return None
 
 
 def install(interp):
@@ -227,37 +299,112 @@ def coll_oracle(interp, env, f, args, t, bb, path):
     # ---- vectors
     if k in ("alloc::vec::Vec::new", "alloc::vec::Vec::with_capacity"):
         return new_vec(interp)
+    if k in ("alloc::collections::btree::set::BTreeSet::new", "std::collections::hash::set::HashSet::new", "std::collections::HashSet::new"):
+        return new_vec(interp)     # a set is modelled as the vector of its distinct members (insertion order)
+    if isinstance(v0, Vec) and sa in ("alloc::collections::btree::set::BTreeSet", "std::collections::hash::set::HashSet", "std::collections::HashSet") and nm in ("insert", "contains", "remove") and len(args) == 2:
+        items = list(view_get(interp, v0))
+        x = load(interp, env, args[1])
+        hit = None
+        for i, y in enumerate(items):
+            r = veq(interp, env, y, x)
+            if r is TOP:
+                return TOP
+            if r:
+                hit = i
+                break
+        if nm == "contains":
+            return hit is not None
+        if nm == "insert":
+            if hit is None:
+                view_set(interp, v0, items + [x])
+            return hit is None
+        if hit is not None:
+            del items[hit]
+            view_set(interp, v0, items)
+        return hit is not None
     if isinstance(v0, Vec):
-        items = list(heap_get(interp, v0.vid))
+        items = list(view_get(interp, v0))
+        off = v0.lo or 0
+
+        # ---- sub-slices, rotations and bulk moves (views keep their length)
+        rng_arg = load(interp, env, args[1]) if len(args) > 1 else None
+        if isinstance(rng_arg, Agg) and (rng_arg.name or "").startswith("core::ops::range::Range") and \
+                (dk in ("core::ops::index::Index::index", "core::ops::index::IndexMut::index_mut") or nm in ("get", "get_mut", "drain", "splice")):
+            b = _range_bounds(rng_arg, len(items))
+            if b is None:
+                return TOP
+            lo, hi = b
+            bad = lo > hi or hi > len(items)
+            if nm in ("get", "get_mut"):
+                return NONE if bad else some(Vec(v0.vid, True, off + lo, off + hi))
+            if bad:
+                return "DIVERGE"
+            if nm == "drain":
+                view_set(interp, v0, items[:lo] + items[hi:])
+                return It(items[lo:hi])
+            if nm == "splice" and len(args) == 3:
+                ins = iter_items(interp, env, args[2])
+                if ins is None:
+                    return TOP
+                view_set(interp, v0, items[:lo] + [load(interp, env, x) if isinstance(x, Ref) else x for x in ins] + items[hi:])
+                return It(items[lo:hi])
+            return Vec(v0.vid, True, off + lo, off + hi)
+        if nm in ("rotate_left", "rotate_right") and len(args) == 2 and isinstance(args[1], int) and not isinstance(args[1], bool):
+            k_ = args[1]
+            if k_ > len(items):
+                return "DIVERGE"
+            if nm == "rotate_right":
+                k_ = len(items) - k_
+            view_set(interp, v0, items[k_:] + items[:k_])
+            return unit
+        if nm in ("swap_with_slice", "clone_from_slice", "copy_from_slice") and len(args) == 2:
+            src = load(interp, env, args[1])
+            if not isinstance(src, Vec):
+                return TOP
+            other = list(view_get(interp, src))
+            if len(other) != len(items):
+                return "DIVERGE"
+            view_set(interp, v0, other)
+            if nm == "swap_with_slice":
+                view_set(interp, src, items)
+            return unit
+        if nm in ("split_at", "split_at_mut") and len(args) == 2 and isinstance(args[1], int) and not isinstance(args[1], bool):
+            m_ = args[1]
+            if m_ > len(items):
+                return "DIVERGE"
+            return Agg("tuple", None, None, [Vec(v0.vid, True, off, off + m_), Vec(v0.vid, True, off + m_, off + len(items))])
+        if nm == "fill" and len(args) == 2:
+            view_set(interp, v0, [args[1]] * len(items))
+            return unit
         if nm in ("len",) and (sa == "alloc::vec::Vec" or sty.startswith("[")):
             return len(items)
         if nm == "is_empty":
             return len(items) == 0
         if k == "alloc::vec::Vec::push":
-            heap_set(interp, v0.vid, items + [load(interp, env, args[1]) if isinstance(args[1], Ref) else args[1]])
+            view_set(interp, v0, items + [load(interp, env, args[1]) if isinstance(args[1], Ref) else args[1]])
             return unit
         if k == "alloc::vec::Vec::pop":
             if items:
-                heap_set(interp, v0.vid, items[:-1])
+                view_set(interp, v0, items[:-1])
                 return some(items[-1])
             return NONE
         if k == "alloc::vec::Vec::truncate" and isinstance(args[1], int):
-            heap_set(interp, v0.vid, items[:args[1]])
+            view_set(interp, v0, items[:args[1]])
             return unit
         if k == "alloc::vec::Vec::clear":
-            heap_set(interp, v0.vid, [])
+            view_set(interp, v0, [])
             return unit
         if k == "alloc::vec::Vec::extend_from_slice":
             src = load(interp, env, args[1])
             if isinstance(src, Vec):
-                heap_set(interp, v0.vid, items + list(heap_get(interp, src.vid)))
+                view_set(interp, v0, items + list(view_get(interp, src)))
                 return unit
             return TOP
         if nm in ("extend", "append") and len(args) == 2:
             its = iter_items(interp, env, args[1])
             if its is None:
                 return TOP
-            heap_set(interp, v0.vid, items + [load(interp, env, x) for x in its])
+            view_set(interp, v0, items + [load(interp, env, x) for x in its])
             if nm == "append":
                 src = load(interp, env, args[1])
                 if isinstance(src, Vec):
@@ -266,15 +413,15 @@ def coll_oracle(interp, env, f, args, t, bb, path):
         if nm in ("first", "last") and sty.startswith("["):
             if not items:
                 return NONE
-            return some(HRef(v0.vid, 0 if nm == "first" else len(items) - 1))
+            return some(HRef(v0.vid, off + (0 if nm == "first" else len(items) - 1)))
         if nm in ("first_mut", "last_mut"):
             if not items:
                 return NONE
-            return some(HRef(v0.vid, 0 if nm == "first_mut" else len(items) - 1))
+            return some(HRef(v0.vid, off + (0 if nm == "first_mut" else len(items) - 1)))
         if nm in ("get", "get_mut") and isinstance(args[1], int) and not isinstance(args[1], bool):
-            return some(HRef(v0.vid, args[1])) if 0 <= args[1] < len(items) else NONE
+            return some(HRef(v0.vid, off + args[1])) if 0 <= args[1] < len(items) else NONE
         if dk in ("core::ops::index::Index::index", "core::ops::index::IndexMut::index_mut") and isinstance(args[1], int) and not isinstance(args[1], bool):
-            return HRef(v0.vid, args[1]) if 0 <= args[1] < len(items) else "DIVERGE"
+            return HRef(v0.vid, off + args[1]) if 0 <= args[1] < len(items) else "DIVERGE"
         if nm == "contains" and len(args) == 2:
             res = False
             for x in items:
@@ -286,23 +433,23 @@ def coll_oracle(interp, env, f, args, t, bb, path):
         if nm in ("sort_unstable_by_key", "sort_by_key", "sort_by_cached_key") and len(args) == 2:
             keys = []
             for i, x in enumerate(items):
-                kv = _call1(interp, args[1], [HRef(v0.vid, i)])
+                kv = _call1(interp, args[1], [HRef(v0.vid, off + i)])
                 r = rank(interp, env, kv) if kv is not None else None
                 if r is None:
                     return TOP
                 keys.append(r)
             order = sorted(range(len(items)), key=lambda i: keys[i])
-            heap_set(interp, v0.vid, [items[i] for i in order])
+            view_set(interp, v0, [items[i] for i in order])
             return unit
         if nm in ("sort", "sort_unstable") and len(args) == 1:
             keys = [rank(interp, env, x) for x in items]
             if any(r is None for r in keys):
                 return TOP
             order = sorted(range(len(items)), key=lambda i: keys[i])
-            heap_set(interp, v0.vid, [items[i] for i in order])
+            view_set(interp, v0, [items[i] for i in order])
             return unit
         if nm in ("reverse",):
-            heap_set(interp, v0.vid, items[::-1])
+            view_set(interp, v0, items[::-1])
             return unit
         if nm == "shuffle":
             path.events.append(Event("shuffle", bb, v0.vid))
@@ -311,28 +458,28 @@ def coll_oracle(interp, env, f, args, t, bb, path):
         by_ref = (f.get("resolved", {}).get("key") or "").startswith("<&") or ((f.get("gargs") or [""])[0].startswith("&")) or not isinstance(a0, Vec) or a0.borrowed
         if nm in ("chunks", "chunks_exact", "chunks_mut", "chunks_exact_mut") and isinstance(args[1], int) and args[1] > 0:
             c = args[1]
-            refs = [HRef(v0.vid, i) for i in range(len(items))]
+            refs = [HRef(v0.vid, off + i) for i in range(len(items))]
             out = [Agg("slice", None, None, refs[i:i + c]) for i in range(0, len(refs), c)]
             if nm.startswith("chunks_exact"):
                 out = [x for x in out if len(x.fields) == c]
             return It(out)
         if nm == "windows" and isinstance(args[1], int) and args[1] > 0:
-            refs = [HRef(v0.vid, i) for i in range(len(items))]
+            refs = [HRef(v0.vid, off + i) for i in range(len(items))]
             return It([Agg("slice", None, None, refs[i:i + args[1]]) for i in range(0, len(refs) - args[1] + 1)])
         if nm in ("iter", "iter_mut") or (nm == "into_iter" and by_ref):
-            return It([HRef(v0.vid, i) for i in range(len(items))])
+            return It([HRef(v0.vid, off + i) for i in range(len(items))])
         if nm == "into_iter":
             return It(items)
         if nm in ("to_vec", "to_owned", "clone") and (sa == "alloc::vec::Vec" or sty.startswith("[") or dk == "core::clone::Clone::clone"):
             return new_vec(interp, items)
         if nm in ("deref", "deref_mut", "as_slice", "as_mut_slice", "as_ref", "as_mut", "borrow", "borrow_mut"):
-            return Vec(v0.vid, borrowed=True)
+            return Vec(v0.vid, True, v0.lo, v0.hi)
         if nm == "swap" and all(isinstance(x, int) for x in args[1:3]):
             i, j = args[1], args[2]
             if max(i, j) >= len(items):
                 return "DIVERGE"
             items[i], items[j] = items[j], items[i]
-            heap_set(interp, v0.vid, items)
+            view_set(interp, v0, items)
             return unit
         if nm in ("remove", "swap_remove") and isinstance(args[1], int):
             i = args[1]
@@ -344,15 +491,28 @@ def coll_oracle(interp, env, f, args, t, bb, path):
             else:
                 items[i] = items[-1]
                 items.pop()
-            heap_set(interp, v0.vid, items)
+            view_set(interp, v0, items)
             return x
         if nm == "insert" and isinstance(args[1], int):
             if args[1] > len(items):
                 return "DIVERGE"
             items.insert(args[1], args[2])
-            heap_set(interp, v0.vid, items)
+            view_set(interp, v0, items)
             return unit
 
+    if isinstance(v0, Agg) and v0.kind in ("array", "slice") and v0.name is None:
+        if nm == "contains" and len(args) == 2:
+            res = False
+            for x in v0.fields:
+                r = veq(interp, env, x, args[1])
+                if r is TOP:
+                    return TOP
+                res = res or r
+            return res
+        if nm in ("iter", "into_iter"):
+            return It(v0.fields)
+        if nm == "len":
+            return len(v0.fields)
     # ---- integer ranges and repeat
     if isinstance(v0, Agg) and v0.name in ("core::ops::range::Range", "core::ops::range::RangeInclusive") and len(v0.fields) >= 2 \
             and all(isinstance(x, int) and not isinstance(x, bool) for x in v0.fields[:2]):
@@ -388,6 +548,18 @@ def coll_oracle(interp, env, f, args, t, bb, path):
         if nm == "take" and isinstance(args[1], int):
             return It([v0.fields[0]] * args[1])
         return TOP
+    if dk in ("alloc::vec::from_elem", "alloc::vec::spec_from_elem::SpecFromElem::from_elem") and len(args) >= 2 and isinstance(args[1], int):
+        return new_vec(interp, [args[0]] * args[1])
+    if dk in ("core::mem::swap",) and len(args) == 2 and all(isinstance(x, (Ref, HRef)) for x in args):
+        a_, b_ = load(interp, env, args[0]), load(interp, env, args[1])
+        if store_ref(interp, env, args[0], b_) and store_ref(interp, env, args[1], a_):
+            return unit
+        return TOP
+    if dk in ("core::mem::replace",) and len(args) == 2 and isinstance(args[0], (Ref, HRef)):
+        old = load(interp, env, args[0])
+        if store_ref(interp, env, args[0], args[1]):
+            return old
+        return TOP
     # ---- iterators
     if nm == "into_iter" and isinstance(v0, It):
         return v0
@@ -396,7 +568,12 @@ def coll_oracle(interp, env, f, args, t, bb, path):
     if nm == "into_iter" and isinstance(v0, Agg) and v0.name in ("core::option::Option", "core::result::Result"):
         return It(v0.fields[:1] if v0.variant in ("Some", "Ok") else [])
     if nm == "multizip" and isinstance(v0, Agg) and v0.kind == "tuple":
-        lists = [iter_items(interp, env, x) for x in v0.fields]
+        tys = _split_top(((f.get("gargs") or ["", ""])[-1] or "")[1:-1])
+        flds = list(v0.fields)
+        for i_, x in enumerate(flds):
+            if isinstance(x, Vec) and not x.borrowed and i_ < len(tys) and tys[i_].startswith("&"):
+                flds[i_] = Vec(x.vid, True, x.lo, x.hi)
+        lists = [iter_items(interp, env, x) for x in flds]
         if any(l is None for l in lists):
             return TOP
         return It([Agg("tuple", None, None, list(xs)) for xs in zip(*lists)])
@@ -411,6 +588,18 @@ def coll_oracle(interp, env, f, args, t, bb, path):
             return some(it.items[0]) if it.items else NONE
         if nm in ("cloned", "copied"):
             return It([load(interp, env, x) for x in it.items])
+        if nm in ("circular_tuple_windows", "tuple_windows"):
+            import re as _re
+            m_ = _re.search(r"TupleWindows<.*, \((.*)\)>$", f.get("ret") or "")
+            ar = len(_split_top(m_.group(1))) if m_ else 0
+            if ar < 2:
+                return TOP
+            xs = list(it.items)
+            if nm == "tuple_windows":
+                return It([Agg("tuple", None, None, xs[i:i + ar]) for i in range(0, len(xs) - ar + 1)])
+            if not xs:
+                return It([])
+            return It([Agg("tuple", None, None, [xs[(i + j) % len(xs)] for j in range(ar)]) for i in range(len(xs))])
         if nm == "chain" and len(args) == 2:
             other = iter_items(interp, env, args[1])
             if other is None:
@@ -549,7 +738,7 @@ def coll_oracle(interp, env, f, args, t, bb, path):
     if dk in ("core::convert::TryInto::try_into", "core::convert::TryFrom::try_from") and isinstance(v0, Vec) and "; " in (f.get("ret") or ""):
         import re as _re
         m = _re.search(r"; (\d+)\]", f.get("ret") or "")
-        items = heap_get(interp, v0.vid)
+        items = view_get(interp, v0)
         if m:
             from absint import ok as _ok, err as _err
             return _ok(Agg("array", None, None, list(items))) if len(items) == int(m.group(1)) else _err(v0)
